@@ -13,10 +13,10 @@ MANIFEST = {
             "conclusion of the theorem is decided EXACTLY (integer arithmetic on the IEEE values) on the factors returned by "
             "the real code for a sweep of thresholds, panel sizes, relaxation, supernode sizes, 1-D/2-D blocking cut-offs, "
             "vendor-BLAS and built-in kernel code paths, thread counts and seeded schedule perturbation.",
-    "note": "The blocked numeric kernels are not modelled line by line: they are covered by the 'any summation order' "
+    "note": "The pivot search and pivot policy of p?gstrf_pivotL are RE-TRANSLATED from the current source on every run (tools/c2gal.py over the clang AST -> coq/PivotGen.v, four precisions, general nsupc) and proved equal to the hand-written model pivotL (PivotTie.v: loop induction + per-precision body lemmas; c02_source_pivot_is_model and the threshold / multiplier / singular theorems restated for the source); the routine prefix (nsupc, nsupr, the candidate rows and magnitudes) and thresh = u*pivmax are inputs of the translated slice.  The blocked numeric kernels are not modelled line by line: they are covered by the 'any summation order' "
             "quantification of the theorem plus the exact certificate on sampled inputs. FLX (no overflow/underflow) rounding "
             "model. Trusted: Coq kernel, Reals/Flocq axioms listed in the evidence, extraction, hooks, python integer certificate.",
-    "technique": "Coq proof (pivot rule; backward error of relational LU, any summation order) + exact certificate and pivot-replay correspondence",
+    "technique": "Coq proof (pivot rule, proved equal to a translation of the C source regenerated on every run; backward error of relational LU, any summation order) + exact certificate and pivot-replay correspondence",
 }
 
 UPOW = {"d": 53, "s": 24, "z": 53, "c": 24}
